@@ -8,10 +8,11 @@ from .common import load
 ns = load()
 
 
-MID_RUN = ("skill_busy", "fskill_busy", "skill", "cost", "absence_assign", "absence_append", "rule", "solo", "fixed", "rate", "fskill", "fcost")
+STRUCT = ("add_worker", "team_target_add", "team_target_remove", "wp_inputs_set")
+MID_RUN = STRUCT + ("skill_busy", "fskill_busy", "skill", "cost", "absence_assign", "absence_append", "rule", "solo", "fixed", "rate", "fskill", "fcost")
 
 
-def edit(rng, spec, model, n=None, only=None):
+def edit(rng, spec, model, n=None, only=None, extra=(), skip=()):
     """Returns (edited spec, list of human-readable edits). `model` (vf.build.Model) is edited in place.
     only: restrict the kinds of edit (MID_RUN: those that make sense between a pause and its resume -
     defaults that are only read by initialize() and capacities below the current load are left out)."""
@@ -23,6 +24,8 @@ def edit(rng, spec, model, n=None, only=None):
     if facs:
         kinds += ["fskill", "space", "fcost"]
     kinds += ["skill_busy"] + (["fskill_busy"] if facs else [])
+    # changes of the organization's structure: a new worker, a team's targets, a workplace's conveyor inputs
+    kinds += ["add_worker", "team_target_add", "team_target_remove"] + (["wp_inputs_set"] if len(s["wps"]) >= 2 else [])
     if len(s["tasks"]) >= 2:
         kinds += ["edge_add"]
     free_comps = [k for k in range(len(s["comps"])) if not any(t["component"] == k for t in s["tasks"])]
@@ -31,6 +34,10 @@ def edit(rng, spec, model, n=None, only=None):
         kinds += ["bind_component", "bind_component"]
     if only is not None:
         kinds = [k for k in only if k in kinds]     # (repeated entries of `only` weigh more)
+    kinds = kinds + [k for k in extra if k in kinds]  # (kinds a property is most sensitive to, drawn more often)
+    kinds = [k for k in kinds if k not in skip]       # (kinds whose effect a monitor's log pass cannot follow)
+    if not kinds:
+        return s, done
     for _ in range(n or rng.randint(1, 3)):
         k = rng.choice(kinds)
         if k in ("skill", "cost", "absence_assign", "absence_append", "solo") and workers:
@@ -79,6 +86,61 @@ def edit(rng, spec, model, n=None, only=None):
                             if w["id"] == rid:
                                 w["skills"][t.name] = v
                 done.append("%s %s skill[%s]=%r (busy)" % ("worker" if k == "skill_busy" else "facility", rid, t.name, v))
+        elif k == "add_worker":
+            ti = rng.randrange(len(s["teams"]))
+            tm = s["teams"][ti]
+            wid = "WN%d_%d" % (ti, len(tm["workers"]))
+            if wid not in model.workers:
+                names = sorted(set(t["name"] for t in s["tasks"]))
+                sk = {nm: rng.choice([0.5, 1.0, 2.0]) for nm in rng.sample(names, min(len(names), rng.randint(1, 3)))}
+                fsk = {f["name"]: 1.0 for wp in s["wps"] for f in wp["facilities"]}
+                w = dict(name=wid.lower(), id=wid, skills=sk, fskills=fsk, cost=rng.choice([0.0, 1.0, 2.5]), solo=False, absence=[], main_wp=None)
+                tm["workers"].append(w)
+                wo = ns.BaseWorker(w["name"], ID=w["id"], cost_per_time=w["cost"], solo_working=False,
+                                   workamount_skill_mean_map=dict(sk), facility_skill_map=dict(fsk), absence_time_list=[])
+                # (a worker who joins a project that has logs gets logs of the same length, as a user would have to)
+                n_ = len(model.project.cost_list)
+                wo.state_record_list = [ns.BaseWorkerState.FREE] * n_
+                wo.cost_list = [0.0] * n_
+                wo.assigned_task_id_record = [[] for _ in range(n_)]
+                model.teams[ti].add_worker(wo)
+                model.workers[wid] = wo
+                done.append("new worker %s in team %s skilled for %s" % (wid, tm["id"], sorted(sk)))
+        elif k in ("team_target_add", "team_target_remove"):
+            ti = rng.randrange(len(s["teams"]))
+            tm, to = s["teams"][ti], model.teams[ti]
+            if not tm.get("ctor_targets"):
+                if k == "team_target_add":
+                    cand = [i for i in range(len(s["tasks"])) if i not in tm["targets"]]
+                    if cand:
+                        i = rng.choice(cand)
+                        tm["targets"].append(i)
+                        to.append_targeted_task(model.tasks[i])
+                        done.append("team %s now targets %s" % (tm["id"], s["tasks"][i]["id"]))
+                elif tm["targets"]:
+                    i = rng.choice(tm["targets"])
+                    # prefer a task that has not started yet and that one of this team's workers could do: the
+                    # un-assignment matters for allocations that are still to come
+                    pending = [j for j in tm["targets"] if model.tasks[j].state in (ns.BaseTaskState.NONE, ns.BaseTaskState.READY)
+                               and not model.tasks[j].allocated_worker_list
+                               and any(w.workamount_skill_mean_map.get(model.tasks[j].name, 0.0) > 0 for w in to.worker_list)]
+                    if pending and rng.random() < 0.7:
+                        i = rng.choice(pending)
+                    tm["targets"].remove(i)
+                    to.targeted_task_list.remove(model.tasks[i])
+                    if to in model.tasks[i].allocated_team_list:
+                        model.tasks[i].allocated_team_list.remove(to)
+                    done.append("team %s no longer targets %s" % (tm["id"], s["tasks"][i]["id"]))
+        elif k == "wp_inputs_set":
+            pi = rng.randrange(len(s["wps"]))
+            others = [j for j in range(len(s["wps"])) if j != pi]
+            new_in = sorted(rng.sample(others, rng.randint(0, min(2, len(others)))))
+            if not s["wps"][pi].get("ctor_inputs"):
+                # (one-sided, as an assignment to the public attribute is; the fresh model gets the same through its constructor)
+                s["wps"][pi]["inputs"] = [j for j in new_in if j < pi]
+                s["wps"][pi]["ctor_inputs"] = True
+                model.wps[pi].input_workplace_list = [model.wps[j] for j in s["wps"][pi]["inputs"]]
+                done.append("workplace %s inputs := %s" % (s["wps"][pi]["id"], [s["wps"][j]["id"] for j in s["wps"][pi]["inputs"]]))
         elif k == "bind_component":
             # a component that had no task so far gets one
             free_comps = [c for c in range(len(s["comps"])) if not any(t["component"] == c for t in s["tasks"])]
